@@ -2,10 +2,12 @@
    Transcribes extensions/omniv21/transform/decl.go (Decl, resolveKind in the extracted order,
    deepCopy) and validate.go (validateDecl / validateXPath / validateObject / validateArray /
    validateCustomFunc / validateCustomParse / validateTemplate, computeDeclHash, linkParent) as
-   of /repo HEAD with the `fix:` commits F2, F3, F19 (deepCopy keeps empty object/array; the hash
-   is the class of the public content INCLUDING the resolved kind at every level) and F20
-   (linkParent also links below xpath_dynamic; the xpath_dynamic declaration itself keeps a nil
-   parent).  Executable definitions only. *)
+   of /repo HEAD with the `fix:` commits F2, F3, F19 (deepCopy keeps empty object/array and
+   copies the resolved kind, so the hash is the class of the public content INCLUDING the kind
+   at every level) and F20 (validateArray links every element to its array itself; everything
+   else is linked by linkParent, which walks `children` from FINAL_OUTPUT and therefore never
+   reaches a declaration under xpath_dynamic: those keep a nil parent).
+   Executable definitions only. *)
 From Coq Require Import String List NArith Bool.
 From Coq.Strings Require Import Byte.
 Import ListNotations.
@@ -214,18 +216,25 @@ Section Validate.
 
   (* validateDecl.  [fuel] bounds the template references followed on one path (each pushes a
      name on templateRefStack); everything else is structural in the declaration.  [par] is
-     what linkParent will store as the parent's kind. *)
+     what ends up in Decl.parent (as the parent's kind); [linked] = linkParent reaches this
+     declaration (false below an xpath_dynamic). *)
+  Definition par_of (linked : bool) (k : kind) : option kind :=
+    match k with
+    | KArray => Some KArray
+    | _ => if linked then Some k else None
+    end.
+
   Fixpoint validate_decl (fuel : nat) (stack : list bytes)
-           : list bytes -> decl -> option kind -> vres vdecl :=
+           : list bytes -> decl -> option kind -> bool -> vres vdecl :=
     match fuel with
-    | O => fun _ _ _ => VFuel
+    | O => fun _ _ _ _ => VFuel
     | S f =>
-        fix go (fqdn : list bytes) (d : decl) (par : option kind) {struct d} : vres vdecl :=
+        fix go (fqdn : list bytes) (d : decl) (par : option kind) (linked : bool) {struct d} : vres vdecl :=
           let 'Decl c e x xd fn args ig pa tm ob ar ty nt kp := d in
           (* validateXPath *)
           if (is_some x && is_some xd)%bool then VErr else
           match (match xd with
-                 | Some q => match go (fqdn ++ [bs "xpath_dynamic"]) q None with
+                 | Some q => match go (fqdn ++ [bs "xpath_dynamic"]) q None false with
                              | VOk v => VOk (Some v) | VErr => VErr | VFuel => VFuel
                              end
                  | None => VOk None
@@ -244,7 +253,7 @@ Section Validate.
                                match l with
                                | [] => VOk []
                                | (name, cd) :: r =>
-                                   match go (fqdn ++ [esc_name name]) cd (Some KObject) with
+                                   match go (fqdn ++ [esc_name name]) cd (par_of linked KObject) linked with
                                    | VOk v => match kids r with
                                               | VOk vs => VOk (v :: vs) | VErr => VErr | VFuel => VFuel
                                               end
@@ -263,7 +272,7 @@ Section Validate.
                                match l with
                                | [] => VOk []
                                | cd :: r =>
-                                   match go (fqdn ++ [elem_name i]) cd (Some KArray) with
+                                   match go (fqdn ++ [elem_name i]) cd (par_of linked KArray) linked with
                                    | VOk v => match kids (S i) r with
                                               | VOk vs => VOk (v :: vs) | VErr => VErr | VFuel => VFuel
                                               end
@@ -283,7 +292,7 @@ Section Validate.
                                match l with
                                | [] => VOk []
                                | cd :: r =>
-                                   match go (fqdn ++ [func_name name; arg_name i]) cd (Some KCustomFunc) with
+                                   match go (fqdn ++ [func_name name; arg_name i]) cd (par_of linked KCustomFunc) linked with
                                    | VOk v => match kids (S i) r with
                                               | VOk vs => VOk (v :: vs) | VErr => VErr | VFuel => VFuel
                                               end
@@ -311,7 +320,7 @@ Section Validate.
                           else if (d_isx body && d_isx d)%bool then VErr
                           else
                             let dn := if d_isx d then with_xpath_of d body else body in
-                            validate_decl f stack' fqdn dn par
+                            validate_decl f stack' fqdn dn par linked
                       end
                   end
               | _ => VOk (mk_vd p fqdn par vx [])
@@ -322,7 +331,7 @@ Section Validate.
   (* ValidateTransformDeclarations *)
   Definition validate : vres vdecl :=
     match lookup FINAL_OUTPUT ds with
-    | Some d => validate_decl (S (length ds)) [FINAL_OUTPUT] [FINAL_OUTPUT] d None
+    | Some d => validate_decl (S (length ds)) [FINAL_OUTPUT] [FINAL_OUTPUT] d None true
     | None => VErr
     end.
 End Validate.
